@@ -228,6 +228,57 @@ func init() {
 		c.RequireGuards("C04f", c.SuccessReturns(charge), "return-nil", errSpecs...)
 		c.auditQueryOnly("C04f", "x/subscription/keeper.Keeper.EstimatedProviderRewards", "x/subscription/keeper.Keeper.Estimated")
 		c.RequireCallers("C04f", "x/subscription/keeper.Keeper.AddTrackedCu", pk+"Keeper.chargeCuToSubscriptionAndCreditProvider", "x/subscription/keeper.Keeper.EstimatedProviderRewards")
+		c.Rule("C04g every configured limit counts: in CalculateEffectiveAllowedCuPerEpochFromPolicies a policy's epoch limit is taken into account under EpochCuLimit != 0 and its total limit under TotalCuLimit != 0, each independently of the other field")
+		if ce := c.Fn(pk + "Keeper.CalculateEffectiveAllowedCuPerEpochFromPolicies"); ce != nil {
+			seen := map[string]bool{}
+			ir.EachInstr(ce, func(in ssa.Instruction) {
+				call := ir.CallOf(in)
+				if call == nil || ir.CalleeName(call) != "builtin:append" {
+					return
+				}
+				which := ""
+				if sl, ok := call.Args[1].(*ssa.Slice); ok {
+					if arr, ok := sl.X.(*ssa.Alloc); ok && arr.Referrers() != nil {
+						for _, r := range *arr.Referrers() {
+							if ia, ok := r.(*ssa.IndexAddr); ok {
+								walkStores(ia, func(v ssa.Value) {
+									d := ir.Desc(v)
+									if strings.Contains(d, "GetEpochCuLimit)(") || strings.HasSuffix(d, ".EpochCuLimit") {
+										which = "EpochCuLimit"
+									}
+									if strings.Contains(d, "GetTotalCuLimit)(") || strings.HasSuffix(d, ".TotalCuLimit") {
+										which = "TotalCuLimit"
+									}
+								})
+							}
+						}
+					}
+				}
+				if which == "" {
+					return
+				}
+				other := map[string]string{"EpochCuLimit": "TotalCuLimit", "TotalCuLimit": "EpochCuLimit"}[which]
+				own, foreign := false, ""
+				for _, f := range ir.GuardFacts(in) {
+					if strings.Contains(f, "."+which+" != const(0))") {
+						own = true
+					}
+					if strings.Contains(f, "."+other) {
+						foreign = f
+					}
+				}
+				seen[which] = true
+				key := "C04g/CalculateEffectiveAllowedCuPerEpochFromPolicies/" + which + "-counted-when-non-zero"
+				if own && foreign == "" {
+					c.OK(key, c.P.InstrPos(in), "")
+				} else {
+					c.Fail(key, c.P.InstrPos(in), "a policy's "+which+" is taken into account only under a condition on "+other+" ("+trunc(foreign, 80)+"): a policy that sets only "+which+" is ignored, so the stricter limit does not apply")
+				}
+			})
+			if !seen["EpochCuLimit"] || !seen["TotalCuLimit"] {
+				c.Undecided("C04g: the per-policy limit collection was not found in CalculateEffectiveAllowedCuPerEpochFromPolicies")
+			}
+		}
 		c.NotCovered("the numeric bounds themselves (credited <= signed, sum over an epoch <= allowance*factor); decimal rounding")
 	})
 }
